@@ -218,7 +218,10 @@ def make_body(job):
       else:
         cover('arrive-max-waiters')
         check('arrive.max-waiters-error', failed == 1 and isinstance(t.got[0][1].error, MaxWaitersError) and not S.prov.created and not queued)
-      check('arrive.dead-cached-closed', all(S.cached[i].closed >= 1 for i in range(job['dc'])))
+      # a dead cached connection is either still sitting in the cache (to be found when its turn comes) or has been closed;
+      # it is never dropped from the cache without being closed (which of the cached connections is examined first is the
+      # implementation's choice)
+      check('arrive.dead-cached-closed', all(S.cached[i].closed >= 1 or any(x is S.cached[i] for x in S.pool._cache) for i in range(job['dc'])))
       inv_after(S)
     elif op == 'release':
       dead = set(job['dead'])
